@@ -274,6 +274,61 @@ func retryWindowRule(r *Rule, fn *ssa.Function) int {
 		}
 		n++
 		key := FuncName(fn) + ":retry-window"
+		// the policy that is asked is one that ends: an exponential back-off (which answers Stop once its elapsed-time
+		// window is used up) on every path, also through the helper that builds it - a zero / constant policy never stops
+		{
+			recv := t.Call.Value
+			if !t.Call.IsInvoke() && len(t.Call.Args) > 0 {
+				recv = t.Call.Args[0]
+			}
+			bad := ""
+			var leaves func(v ssa.Value, d int)
+			seenV := map[ssa.Value]bool{}
+			leaves = func(v ssa.Value, d int) {
+				if d > 6 || seenV[v] {
+					return
+				}
+				seenV[v] = true
+				for _, vc := range valueCases(v, nil) {
+					x := ptrOrigin(vc.V)
+					switch y := x.(type) {
+					case *ssa.MakeInterface:
+						leaves(y.X, d+1)
+					case *ssa.ChangeInterface:
+						leaves(y.X, d+1)
+					case *ssa.Call:
+						if strings.HasSuffix(calleeName(y), "backoff.NewExponentialBackOff") {
+							continue
+						}
+						if cal := staticCallee(y); cal != nil && IsModule(cal) {
+							found := false
+							eachInstr(cal, func(in ssa.Instruction) {
+								if rt, ok := in.(*ssa.Return); ok && len(rt.Results) >= 1 {
+									found = true
+									leaves(rt.Results[0], d+1)
+								}
+							})
+							if found {
+								continue
+							}
+						}
+						bad = exprString(x, 0)
+					case *ssa.Alloc:
+						if !strings.HasSuffix(derefType(y.Type()).String(), "backoff.ExponentialBackOff") {
+							bad = "a " + derefType(y.Type()).String()
+						}
+					case *ssa.Parameter, *ssa.FreeVar:
+						// handed in: checked where it is built
+					default:
+						if !strings.HasSuffix(strings.TrimPrefix(x.Type().String(), "*"), "backoff.ExponentialBackOff") {
+							bad = exprString(x, 0)
+						}
+					}
+				}
+			}
+			leaves(recv, 0)
+			r.Check(key+":policy-ends", bad == "", t.Pos(), "the retry policy is an exponential back-off with an elapsed-time window on every path "+bad)
+		}
 		isStop := func(v ssa.Value) bool {
 			k, isC := constInt(v)
 			return isC && k == -1
